@@ -135,6 +135,13 @@ pub fn tryfrom_refstring<T: for<'a> TryFrom<&'a String> + Serialize>(p: &str) ->
     let r = match T::try_from(&s) { Ok(v) => okjs(&v), Err(_) => "err".into() };
     r
 }
+pub fn de_dbg<T: DeserializeOwned + ::std::fmt::Debug>(p: &str) -> String {
+    match serde_json::from_str::<T>(p) { Ok(v) => okjs(&format!("{:?}", v)), Err(e) => format!("err {}", e) }
+}
+pub fn fromstr_dbg<T: FromStr + ::std::fmt::Debug>(p: &str) -> String {
+    let s = match text(p) { Some(s) => s, None => return "badpayload".into() };
+    match s.parse::<T>() { Ok(v) => okjs(&format!("{:?}", v)), Err(_) => "err".into() }
+}
 pub fn display<T: DeserializeOwned + Display>(p: &str) -> String {
     match serde_json::from_str::<T>(p) {
         Ok(v) => okjs(&format!("{}", v)),
@@ -373,6 +380,11 @@ class Batch:
                 for op in STR_OPS:
                     if op in ops:
                         arm(op, "crate::h::%s::<%s>(p)" % (op, ident))
+            # the VALUE (its Debug text), not its serialisation: opt-in ops for checks that compare which variant was built
+            if "de_dbg" in ops:
+                arm("de_dbg", "crate::h::de_dbg::<%s>(p)" % ident)
+            if t["has_impl"].get("FromStr") and "fromstr_dbg" in ops:
+                arm("fromstr_dbg", "crate::h::fromstr_dbg::<%s>(p)" % ident)
             if t["has_impl"].get("Display") and "display" in ops:
                 arm("display", "crate::h::display::<%s>(p)" % ident)
             if t["has_impl"].get("Default") and "default" in ops:
